@@ -801,6 +801,32 @@ fn apply(root: &Path, a: &Act) {
     }
 }
 
+fn init_tree_variant(root: &Path, variant: usize) {
+    if variant < 2 {
+        return init_tree(root, variant == 1);
+    }
+    init_tree(root, true);
+    let proj = root.join("proj");
+    if variant == 2 {
+        // a project whose report exceeds a megabyte: 12 files with names of 200 bytes and 450 findings each, in all
+        // three categories
+        let mut body = String::from("pragma solidity ^0.8.0;\ncontract Big {\n  uint256 private hidden;\n  function g(uint256 a, uint256 b, address t) public payable {\n");
+        for _ in 0..150 {
+            body.push_str("    if (a >= b + 1) { IERC20(t).transfer(t, a - b); }\n");
+        }
+        body.push_str("  }\n  constructor() {}\n}\n");
+        for k in 0..12 {
+            let name = format!("{}{:02}.sol", "LongContractName".repeat(12), k);
+            std::fs::write(proj.join(&name), &body).unwrap();
+        }
+    } else {
+        // file names with control and quoting characters (they are copied into the report verbatim)
+        for (name, src) in [("Vau\r\nlt.sol", crate::fsx::SRC_PQ), ("tab\tname.sol", crate::fsx::SRC_P), ("sp ace.sol", crate::fsx::SRC_PQ), ("q\"uote'.sol", crate::fsx::SRC_P), ("line\nfeed.sol", crate::fsx::SRC_PQ)] {
+            std::fs::write(proj.join(name), src).unwrap();
+        }
+    }
+}
+
 fn init_tree(root: &Path, only_contracts: bool) {
     std::fs::create_dir_all(root.join("out")).unwrap();
     std::fs::create_dir_all(root.join("proj").join("sub")).unwrap();
@@ -879,12 +905,23 @@ pub fn c18(tier: Tier) -> i32 {
     }
     let _ = (&mut frontier, &mut seen);
     gen(&acts, depth, &mut Vec::new(), &mut histories);
-    let n_hist = histories.len();
-    let res = util::par_map(2 * n_hist, |hi| {
-        let h = &histories[hi % n_hist];
-        let only_contracts = hi >= n_hist;
+    // (initial tree, history): every history from the two small trees; histories of <= 2 actions also from a tree whose
+    // report is larger than a megabyte and from a tree with control / quoting characters in file names
+    let mut jobs: Vec<(usize, usize)> = Vec::new();
+    for variant in [2usize, 3, 0, 1] {
+        for (k, h) in histories.iter().enumerate() {
+            let runs_only = h.iter().all(|a| matches!(a, Act::Run(_)));
+            if variant < 2 || (variant == 3 && h.len() <= 2) || (variant == 2 && h.len() <= 2 && runs_only) {
+                jobs.push((variant, k));
+            }
+        }
+    }
+    let res = util::par_map_each(jobs.len(), |ji| {
+        let (variant, k) = jobs[ji];
+        let h = &histories[k];
+        let only_contracts = variant == 1;
         let root = scratch("c18");
-        init_tree(&root, only_contracts);
+        init_tree_variant(&root, variant);
         let mut vs = Vec::new();
         let mut runs = 0u64;
         let mut snap_hash = 0u64;
@@ -902,7 +939,7 @@ pub fn c18(tier: Tier) -> i32 {
                     runs += 1;
                     let after = snapshot(&root);
                     let rep_rel = if cwd_rel.is_empty() { "solstat_report.md".to_string() } else { format!("{}/solstat_report.md", cwd_rel) };
-                    let hist = format!("{:?} on the initial tree {} (violation at step {})", h, if only_contracts { "of contracts only" } else { "with other files" }, step);
+                    let hist = format!("{:?} on the initial tree {} (violation at step {})", h, ["with other files", "of contracts only", "with a report of more than a megabyte", "with control and quoting characters in file names"][variant], step);
                     if out.code != Some(0) {
                         vs.push(Violation { site: "run:failed".into(), input: hist.clone(), expected: "exit 0".into(), observed: format!("exit {:?} stderr {}", out.code, out.stderr), size: h.len(), unit_test: String::new(), extra: json!({}) });
                         continue;
@@ -985,14 +1022,14 @@ pub fn c18(tier: Tier) -> i32 {
         run.merge_violations(vs);
     }
     // determinism self-test of the harness side: replay the first histories
-    run.set("states", 2 * histories.len() as u64);
+    run.set("states", jobs.len() as u64);
     run.set("transitions", runs);
     run.set("traces_validated_against_impl", runs);
     run.set("evaluations", runs);
     run.set("distinct_nontrivial", finals.len() as u64);
     run.set(
         "rule",
-        "states = (initial tree: contracts only / contracts next to other files) x histories of <= 3 (quick) / 4 (thorough) actions ending in a run, over 21 actions: run the unhooked binary from a directory outside the tree / from the parent of the analysed directory / from the analysed directory itself / from a sub-directory of it / from the parent through a --toml file that lives in another directory and names the tree relatively; edit the tree (add, change, remove a .sol file, make the tree finding-free); plant a left-over solstat_report.md (unrelated bytes, 1 MB, a longer stale report) in any of the three working directories. After every run: byte snapshot of the whole scratch root before/after (only <cwd>/solstat_report.md may differ or appear), the report exists, and it is byte-identical to the report of a run on a fresh copy of the current tree from a clean working directory; non-trivial = distinct final snapshots",
+        "states = (initial tree: contracts only / contracts next to other files; for histories of <= 2 runs also a tree whose report exceeds a megabyte, for histories of <= 2 actions also a tree with control and quoting characters in file names) x histories of <= 3 (quick) / 4 (thorough) actions ending in a run, over 21 actions: run the unhooked binary from a directory outside the tree / from the parent of the analysed directory / from the analysed directory itself / from a sub-directory of it / from the parent through a --toml file that lives in another directory and names the tree relatively; edit the tree (add, change, remove a .sol file, make the tree finding-free); plant a left-over solstat_report.md (unrelated bytes, 1 MB, a longer stale report) in any of the three working directories. After every run: byte snapshot of the whole scratch root before/after (only <cwd>/solstat_report.md may differ or appear), the report exists, and it is byte-identical to the report of a run on a fresh copy of the current tree from a clean working directory; non-trivial = distinct final snapshots",
     );
     run.set("bound_completed", format!("history length <= {}", depth));
     run.set("samples", json!(histories.iter().step_by(histories.len() / 3 + 1).take(3).map(|h| format!("{:?}", h)).collect::<Vec<_>>()));
